@@ -1452,6 +1452,12 @@ impl Cluster {
                     let j: u64 = s[9..].parse().unwrap_or(0);
                     r.raft.adjust_max_inflight_msgs(j, val as usize)
                 }
+                "group_commit" => r.raft.enable_group_commit(val != 0),
+                "clear_groups" => r.raft.clear_commit_group(),
+                s if s.starts_with("group:") => {
+                    let j: u64 = s[6..].parse().unwrap_or(0);
+                    r.raft.assign_commit_groups(&[(j, val.max(1) as u64)])
+                }
                 _ => {}
             },
             |_| "ok".into(),
@@ -1459,7 +1465,15 @@ impl Cluster {
         Some(self.event(
             "SetKnob",
             n,
-            json!({"name": name, "val": val}),
+            {
+                // "inflight:3" / "group:3" are reported as name + peer
+                let (base, j) = match name.split_once(':') {
+                    Some((b, j)) => (b.to_string(), j.parse::<u64>().unwrap_or(0)),
+                    None => (name.to_string(), 0),
+                };
+                let v = if base == "group" { val.max(1) } else { val };
+                json!({"name": base, "j": j, "val": v})
+            },
             r,
             hr0,
             gen,
